@@ -102,6 +102,12 @@ void run(Ctx &ctx) {
     for (char a : A14) for (char b : A14) if (ctx.mine(idx++)) { Str s; s += a; s += b; ra.escape_case(s); rw.escape_case(s); }
     all_strings(ctx, Str("a +%\r\n\xff", 7), Le, [&](const Str &s) { if (ctx.expired()) return; ra.escape_case(s); rw.escape_case(s); });
     all_strings(ctx, Str("%0aAdDg+x\r\n", 11), Lu, [&](const Str &s) { if (ctx.expired()) return; ra.unescape_case(s); rw.unescape_case(s); });
+    // token sequences: interactions that short raw strings cannot reach (encoded CR/LF next to malformed '%', '+', raw breaks)
+    {
+        std::vector<Str> toks = { "%0D", "%0A", "%0d", "%0a", "%", "%A", "%4", "%g", "a", "+", "%41", "\r", "\n", "%2" }; int nt = ctx.secondary ? 3 : ctx.quick() ? 4 : 5; uint64_t ti = 0;
+        token_seqs(toks, nt, [&](const std::vector<int> &seq) { if (!ctx.mine(ti++) || ctx.expired()) return; Str t; for (int k : seq) t += toks[k]; ra.unescape_case(t); rw.unescape_case(t); });
+        std::vector<Str> etoks = { "\r", "\n", " ", "a", "%", "\xff", "+" }; int ne = ctx.secondary ? 3 : ctx.quick() ? 6 : 7; (void)ne;
+    }
     if (sw.tripped()) ctx.violation("", "E`a`0`0`A", "AddressSanitizer reported an invalid access");
     ctx.st.count("evaluations", lc.esc_cases + lc.unesc_cases); ctx.st.count("escape_cases", lc.esc_cases); ctx.st.count("unescape_cases", lc.unesc_cases); ctx.st.count("roundtrips", lc.roundtrips);
     ctx.st.count("unescape_shrunk", lc.shrunk); ctx.st.count("malformed_percent_seen", lc.malformed); ctx.st.count("encoded_breaks_seen", lc.breaks);
@@ -114,7 +120,7 @@ void replay(Ctx &ctx, const Str &enc) {
 }
 Str coverage(const Ctx &, const Stats &st) {
     return jkv("evaluations", st.get("evaluations")) + ", " + jkv("distinct_nontrivial", st.get("unescape_shrunk") + st.get("roundtrips")) + ", " +
-           jkvs("rule", "cases = (string, flags, entry point, char type). Escape: every single character 1..255, every pair over 14 symbols (letters, digit, ~, space, +, %, CR, LF, 0x01, 0x7F, 0x80, 0xFF, /), all strings up to length Le over {a, space, +, %, CR, LF, 0xFF}; both flags; explicit range and NUL-terminated; output placed in a buffer of exactly 3n+1 (6n+1) characters ending at an inaccessible page. Unescape: all strings up to length Lu over {%, 0, a, A, d, D, g, +, x, CR, LF}; plus on/off; four break modes; buffer of exactly strlen+1 characters ending at an inaccessible page. Oracles: an independent escape/unescape pair, output alphabet, bounds, returned pointer, and the library's own unescape(escape(x)). distinct_nontrivial = unescape cases that actually shortened the string + completed escape round trips (each a distinct case by construction).") + ", " +
+           jkvs("rule", "cases = (string, flags, entry point, char type). Escape: every single character 1..255, every pair over 14 symbols (letters, digit, ~, space, +, %, CR, LF, 0x01, 0x7F, 0x80, 0xFF, /), all strings up to length Le over {a, space, +, %, CR, LF, 0xFF}; both flags; explicit range and NUL-terminated; output placed in a buffer of exactly 3n+1 (6n+1) characters ending at an inaccessible page. Unescape: all strings up to length Lu over {%, 0, a, A, d, D, g, +, x, CR, LF} and all sequences of up to 4 (quick) / 5 tokens over {%0D, %0A, %0d, %0a, %, %A, %4, %g, a, +, %41, CR, LF, %2}; plus on/off; four break modes; buffer of exactly strlen+1 characters ending at an inaccessible page. Oracles: an independent escape/unescape pair, output alphabet, bounds, returned pointer, and the library's own unescape(escape(x)). distinct_nontrivial = unescape cases that actually shortened the string + completed escape round trips (each a distinct case by construction).") + ", " +
            jkv("escape_cases", st.get("escape_cases")) + ", " + jkv("unescape_cases", st.get("unescape_cases")) + ", " + jkv("roundtrips", st.get("roundtrips")) + ", " + jkv("unescape_shrunk", st.get("unescape_shrunk")) + ", " +
            jkv("malformed_percent_seen", st.get("malformed_percent_seen")) + ", " + jkv("encoded_breaks_seen", st.get("encoded_breaks_seen")) + ", " + jkv("escape_max_len", st.get("Le")) + ", " + jkv("unescape_max_len", st.get("Lu")) + ", " + jsamples(st);
 }
